@@ -23,6 +23,7 @@ func init() {
 	chk.RegisterWorker("c07seq", workC07Seq)
 	chk.RegisterWorker("c07cuts", workC07Cuts)
 	chk.RegisterWorker("c07types", workC07Types)
+	chk.RegisterWorker("c07index", workC07Index)
 }
 
 // c07Generic checks file membership, index, line/column, quote; wantTrace (nil = do not check, empty = no trace)
@@ -518,6 +519,68 @@ func workC07Cuts(w *run.W) {
 	}
 }
 
+// workC07Index: "index file" layouts — the root includes k group files back to back, each group file holds nothing but the
+// INCLUDE of one leaf; the fault is in one of the leaves (every leaf x fault kinds x 1-3 leading lines in the groups).
+func workC07Index(w *run.W) {
+	dir := workerDir(w)
+	defer os.RemoveAll(dir)
+	faults := []struct{ name, text, msg string }{
+		{"rule", "TYPE @dup any\nTYPE @dup any\n", "has already been declared"},
+		{"undefined-type", "GET /x%d\n  200 @nope\n", "not found"},
+		{"context", "GET /y%d\n  Title \"t\"\n", "incorrect context"},
+		{"scan", "GET /z%d\n  200 any\n  %%\n", ""},
+	}
+	var idx int64
+	for k := 2; k <= 3; k++ {
+		for bad := 0; bad < k; bad++ {
+			for fi, f := range faults {
+				for lead := 0; lead <= 2; lead++ {
+					idx++
+					if !w.Mine(idx) || !w.Begin(fmt.Sprintf("index/%d/%d/%s/%d", k, bad, f.name, lead)) {
+						continue
+					}
+					pr := impl.Project{Root: "main.jst", Files: map[string]string{}}
+					var root strings.Builder
+					root.WriteString("JSIGHT 0.3\n\n")
+					rootLine := map[int]int{}
+					for g := 0; g < k; g++ {
+						rootLine[g] = 3 + g
+						fmt.Fprintf(&root, "INCLUDE group_%d.jst\n", g)
+						pr.Files[fmt.Sprintf("group_%d.jst", g)] = strings.Repeat("# lead\n", lead) + fmt.Sprintf("INCLUDE leaf_%d.jst\n", g)
+						body := fmt.Sprintf("GET /ok%d\n  200 any\n", g)
+						if g == bad {
+							body = f.text
+							if strings.Contains(body, "%d") {
+								body = fmt.Sprintf(body, g)
+							}
+							body = strings.ReplaceAll(body, "%%", "%")
+						}
+						pr.Files[fmt.Sprintf("leaf_%d.jst", g)] = body
+					}
+					pr.Files["main.jst"] = root.String()
+					b := pr.Build(dir)
+					w.Count("cases", 1)
+					if b.Err == nil || b.Panic != nil {
+						w.Violation("C07", "harness:index-layout-accepted", "index layout with a fault in a leaf is accepted or panics\n"+showProject(pr), nil)
+						w.End()
+						continue
+					}
+					w.Nontrivial(showProject(pr))
+					_ = fi
+					var trace []string
+					check := false
+					if b.Err.File == fmt.Sprintf("leaf_%d.jst", bad) {
+						trace = []string{fmt.Sprintf("%s:%d", b.Err.File, b.Err.Line), fmt.Sprintf("group_%d.jst:%d", bad, lead+1), fmt.Sprintf("main.jst:%d", rootLine[bad])}
+						check = true
+					}
+					c07Generic(w, "index/"+f.name, pr, b.Err, trace, check)
+					w.End()
+				}
+			}
+		}
+	}
+}
+
 // workC07Types: the rejected members of the type-graph family (errors found in one type while another is checked).
 func workC07Types(w *run.W) {
 	dir := workerDir(w)
@@ -551,6 +614,7 @@ func runC07(c *chk.Ctx) {
 		{"c07seq", c07SeqParams{Len: chk.Pick(c, 2, 3)}},
 		{"c07cuts", map[string]any{}},
 		{"c07types", map[string]any{}},
+		{"c07index", map[string]any{}},
 	}
 	for _, s := range steps {
 		b0 := c.Counts()["cases"]
